@@ -1,4 +1,4 @@
-CONSTANTS Family = "enc" MaxBody = 2 Alpha = {97, 13} NExt1 = 6 NExt2 = 2 MaxStr = 0 Alpha2 = {}
+CONSTANTS Family = "enc" MaxBody = 2 Alpha = {13} NExt1 = 6 NExt2 = 2 MaxStr = 0 Alpha2 = {}
 INIT Init
 NEXT Next
 INVARIANT Laws
